@@ -125,10 +125,11 @@ class C04(Property):
             for code in (201, 204, 404, 500, 99, 100, 599, 600, 0, 1000, -1):
                 cases["wh%d" % code] = rc([["wh", code]])
             cases["lock"] = {"kind": "lockprobe"}
+            cases["reply"] = {"kind": "recoverprobe", "vocab": list(self.HEADER_VOCAB)}
             names = sorted(cases)
             sub = [dict(cases[n], id=j) for j, n in enumerate(names)]
             rcode, out, res = vlib.go_run(res, sub, tag="c04probe", timeout=300)
-            if rcode != 0 or len(res) != len(sub) or any(r.get("err") for r in res if r.get("kind") != "lockprobe"):
+            if rcode != 0 or len(res) != len(sub) or any(r.get("err") for r in res if r.get("kind") not in ("lockprobe", "recoverprobe")):
                 raise RuntimeError("probe run failed: rc=%s %s" % (rcode, out[-300:]))
             o = dict(zip(names, res))
             if "locked" in o["lock"]:
@@ -161,8 +162,15 @@ class C04(Property):
             lf = o["lateflush"]["w"]
             got["flush_checks_timedout"] = lf["flushes"] == 0 and lf["late"] == 0 and o["lateflush"]["sout"] == "ret"
             got["flush_sends_status"] = o["flushstatus"]["w"]["status"] == 404
-            if o["recover"]["sout"] == "ret" and o["recover"]["hobs"][1:2] and o["recover"]["hobs"][1][0] == "rec":
-                got["recover_code"] = o["recover"]["hobs"][1][1]
+            rp = o["reply"]
+            if not rp.get("err") and all(len(v) == 1 for v in rp["sets"].values()):
+                # the RecoverHandler's reply: header operations, then the status, then the chunks
+                reply = [["del", n] for n in sorted(rp["dels"])] + [["set", n, rp["sets"][n][0]] for n in sorted(rp["sets"])]
+                if rp["status"]:
+                    reply.append(["wh", rp["status"]])
+                reply += [["w", ch] for ch in (rp["writes"] or [])]
+                got["recover_reply"] = reply
+                got["recover_code"] = rp["status"] or 0
         if {"engine", "sse"} & set(groups):
             (an, av) = dflt["exempt"][1]
             q0 = {"group": 0, "route": 0, "hdrs": [], "parent_ns": None, "fl": True, "h0": [], "deadline": False,
@@ -337,6 +345,16 @@ class C04(Property):
             for pos in range(0, 10):
                 res.append(self._rest(fs, [[1, [5]]], "cancel", pos, fl=fl))
         res.append(self._rest([["w", [200]], ["flush"]], [], "cancel", 1, fl=True))
+        # flushed BEFORE the expiry, then Write + Flush after the middleware returned (handler ignores its context):
+        # the writer is sealed whatever was flushed before — the late Write is refused, the late Flush does nothing
+        # (seeded C04-11: reply skipped and writer not sealed after a flush); cancel and real deadline, each place
+        late = [["w", [200, 201]], ["flush"], ["w", [202]], ["flush"], ["w", [203]]]
+        for mode in ("cancel", "deadline"):
+            for pos in (2, 3, 4):
+                res.append(dict(self._rest(late, [[1, [5]]], mode, pos, fl=True), paths_done=True))
+        for pos in (4, 5, 6, 7):
+            res.append(self._rest(fs, [[1, [5]]], "deadline", pos, fl=True))
+        res.append(dict(self._rest(late, [], "deadline", 2, dur=HOUR, parent=SHORT, fl=True), paths_done=True))
         res.append(self._rest([["flush"], ["wh", 404], ["w", [200]]], [], "none", 0, fl=True))
         res.append(self._rest(fs, [], "cancel", 3, req="sse", fl=True))
         # 1xx informational codes: after the final status (ignored), and headers around them with D at every position
@@ -478,6 +496,9 @@ class C04(Property):
                 c["names"] = {}
                 continue
             vocab = list(self.HEADER_VOCAB)
+            if c.get("rec"):
+                own = set(c04consts.reply_names(self._reply()))      # names the RecoverHandler's reply touches
+                vocab = [n for n in vocab if n not in own]
             if c["kind"] == "srv":
                 own = set(n for n, _v in self.consts["sse_headers"])
                 vocab = [n for n in vocab if n not in own]
@@ -1218,9 +1239,14 @@ class C04(Property):
         items = [[h["k"], h["vs"]] for h in hs]
         extra = 0
         known = self.consts["sse_headers"]
+        rnames = c04consts.reply_names(self._reply())
+        rvals = dict((op[1], op[2]) for op in self._reply() if op[0] == "set")
         for x in xs or []:
             idx = next((i for i, kv in enumerate(known) if kv[0] == x["name"]), None)
-            if idx is None or x["vals"] != [known[idx][1]]:
+            if x["name"] in rvals and x["vals"] == [rvals[x["name"]]]:
+                j = rnames.index(x["name"])       # a header the RecoverHandler's reply sets: key 800+j value 850+j
+                items.append([800 + j, [850 + j]])
+            elif idx is None or x["vals"] != [known[idx][1]]:
                 extra += 1
             else:
                 items.append([900 + idx, [950 + idx]])
@@ -1333,28 +1359,62 @@ class C04(Property):
         return clist(rs), sched, hobs
 
     def _coq_seq(self, c, o):
+        if c.get("rec"):
+            o = dict(o)
+            o["sched"], o["hobs"] = self._gated_reply_headers(o["sched"], o["hobs"], True)
         rs, sched, hobs = self._seq_reqs(c, o)
         return "CSeq (mkSeq %s %s %s %s %s %s)" % (cbool(c.get("rec", False)), cz(c["dur_ns"]), rs, sched, hobs,
                                                    cz(o["ret_at_d"]))
 
-    @staticmethod
-    def _ungated_recovery(o):
+    def _reply(self):
+        return self.consts.get("recover_reply") or [["wh", 500]]
+
+    def _ungated_recovery(self, o):
         """server cases: the engine's own RecoverHandler is not gated.  Right after a panic report of request i
-        its recovery's WriteHeader(500) and the handler's return have happened (or the request hangs: then the
-        case fails prop_ok as SoWait whatever is inserted here): two more handler events of i, in place."""
+        the whole reply (C04Consts.recover_reply_ops: header operations, WriteHeader, Writes) and the handler's
+        return have happened (or the request hangs: then the case fails prop_ok as SoWait whatever is inserted
+        here): that many more handler events of i, in place; a Write of the reply after i's timeout was refused."""
         sched, hobs, hp = [], [], 0
+        timed_out = set()
         for i, e in o["sched"]:
             sched.append([i, e])
+            if e == "St":
+                timed_out.add(i)
             if e == "H":
                 ob = o["hobs"][hp]
                 hp += 1
                 hobs.append(ob)
                 if len(ob) > 1 and ob[1] == "panic":
-                    sched += [[i, "H"], [i, "H"]]
-                    hobs += [[i, "none"], [i, "none"]]
+                    for op in self._reply():
+                        sched.append([i, "H"])
+                        if op[0] == "w":
+                            hobs.append([i, "wto"] if i in timed_out else [i, "wok", len(op[1])])
+                        else:
+                            hobs.append([i, "none"])
+                    sched.append([i, "H"])
+                    hobs.append([i, "none"])
         o = dict(o)
         o["sched"], o["hobs"] = sched, hobs + o["hobs"][hp:]
         return o
+
+    def _gated_reply_headers(self, sched, hobs, multi):
+        """rest / seq cases: the reply's WriteHeader and Writes are gated handler actions, its header operations
+        (map operations right after the recover) are not: one handler event each, right after the panic report"""
+        k = sum(1 for op in self._reply() if op[0] in ("del", "set"))
+        if k == 0:
+            return sched, hobs
+        s2, h2, hp = [], [], 0
+        for ev in sched:
+            s2.append(ev)
+            if (ev[1] if multi else ev) == "H":
+                ob = hobs[hp]
+                hp += 1
+                h2.append(ob)
+                if (ob[1] if multi else ob[0]) == "panic":
+                    for _ in range(k):
+                        s2.append([ev[0], "H"] if multi else "H")
+                        h2.append([ev[0], "none"] if multi else ["none"])
+        return s2, h2 + hobs[hp:]
 
     def _coq_srv(self, c, o):
         if c.get("rec"):
@@ -1477,6 +1537,9 @@ class C04(Property):
 
     def _coq_rest(self, c, o):
         o = self._hung_rest(o)
+        if c.get("rec"):
+            o = dict(o)
+            o["sched"], o["hobs"] = self._gated_reply_headers(o["sched"], o["hobs"], False)
         rq = {"plain": "RqPlain", "ws": "RqWebsocket", "sse": "RqSSE"}[c["req"]]
         sout = {"wait": "SoWait", "ret": "SoRet"}.get(o["sout"])
         if sout is None:
